@@ -17,7 +17,7 @@ def run(ctx):
         soup_s = {"soup_records": 0, "sessions": 0}
     else:
         ok, msg, soup_s = sp
-        if not ok:
+        if soup_s["bad_soup"]:
             rp = ctx.save_replay(tr, "c13-soup-trace.ndjson")
             ctx.violation("net/robustness", "after an arbitrary line the tracker lost the client's entry, tracks a channel without the client, or keeps a user sharing no channel: " + msg[:500], rp)
     ev = {}
